@@ -53,6 +53,9 @@ CLAIMED = {
  "C17": ("E2 product through the plain CLI",
          "38 failing expressions x 30 syntactic positions + 29 failing statements, each at call depth 0..5 through named / anonymous / method calls (4 rotations incl. multi-byte text before every call), two prints before the failure, three path spellings; 13 lexical / syntax errors x 3 prefixes; successful scripts; thorough: pairs of nested positions; every case is a real `seed <path>` process; oracle = stdout holds exactly the prints before the failure (reference), exit 103, first stderr line `<path as given>:L:C: [in '<function>': ]<message>` with L inside the script and a message free of internal identifiers / Rust debug syntax, `Stacktrace:` with one `<path>:L:C: in '<caller>'` line per active call from the reference call stack, ending at <root>; success is silent with exit 0",
          "exhaustive enumeration of error kind x position x call depth on the real CLI against a format grammar and a reference call stack"),
+ "C18": ("E2 product + E3 deviation-bounded exploration",
+         "37 offenders (lexical, syntax, undefined name, operator type / overflow on expressions and on op-assignment to variable / element / property / key, call errors, redeclaration, jumps, stack-trace lines) x every sequence of <= 3 (thorough 4) layout pieces from 10 (newline, space, tab, CR LF, multi-byte comment, statements, multi-line string / literal, multi-byte string on the same line) x 3 in-line indentations; 5 expression offenders x 6 wrappers; newline / end-of-file offenders under same-line and above-line insertions; the whole layout corpus (~440 programs) x every single layout edit with every token start (hook tokens) and every position stored in the syntax tree (hook ast); oracle = the position where the generator put the token, counted in characters, and the reference lexer's / parser's positions",
+         "exhaustive enumeration of offender x layout prefix, and single-edit deviations of a corpus, on the real lexer / parser / interpreter against character counting"),
  "C20": ("E1 breadth-first history exploration + E2 product",
          "all histories of <= 4 (quick) / <= 6 (thorough, wall-capped; 5 completes) operations from 41 operations on x, y and `_` (declare through :=, list pattern, object pattern, fn, for target, parameter; assign; op-assign; read; open / close block, if, loop, function; `_` as target in every entry point; print(_); duplicate names in patterns and parameter lists; collect targets), dead states not expanded; plus 9 non-bindable expression kinds x 9 binding positions; oracle = reference scoping: success / failure, position of the offending name, earlier declaration's position cited in the message",
          "explicit-state breadth-first exploration of operation histories on the real interpreter against a reference model"),
